@@ -37,6 +37,13 @@ theorem regroup_invariant (t : Tbl ℝ) (s₁ s₂ : Items ℝ) (ρ w : ℝ)
     neutronScattering t s₁.atoms ρ w = neutronScattering t s₂.atoms ρ w :=
   PtProofs.Neutron.regroup_invariant t s₁ s₂ ρ w hc hnz1 hnz2
 
+/-- **regrouping**, stated for the quantifier of the property (all atoms have neutron data): no
+    condition on the counts at all -/
+theorem regroup_invariant_allData (t : Tbl ℝ) (s₁ s₂ : Items ℝ) (ρ w : ℝ)
+    (hc : ∀ a, s₁.cnt a = s₂.cnt a) (hd1 : AllData t s₁.atoms) (hd2 : AllData t s₂.atoms) :
+    neutronScattering t s₁.atoms ρ w = neutronScattering t s₂.atoms ρ w :=
+  PtProofs.Neutron.regroup_invariant_allData t s₁ s₂ ρ w hc hd1 hd2
+
 /-- **energy= and wavelength= agree**: by definition of the `energy=` path, at the equivalent
     wavelength; together with the round trip this is `energy_of_wavelength_agrees` -/
 theorem energy_agrees_with_wavelength (t : Tbl ℝ) (atoms : List (Atom × ℝ)) (ρ e : ℝ) :
